@@ -94,7 +94,14 @@ class ElabPass:
         # The base-class ElabPass, and most (perhaps all) sub-classes, return the `self.tops` list unmodified,
         # while modifiying its elements inline.
         for t in self.tops:
-            self.elaborate_module_base(t)  # Note `_base` here!
+            if isinstance(t, Module):
+                self.elaborate_module_base(t)  # Note `_base` here!
+            elif isinstance(t, ExternalModuleCall):
+                self.elaborate_external_module(t)
+            elif isinstance(t, PrimitiveCall):
+                self.elaborate_primitive_call(t)
+            else:
+                self.fail(f"Invalid top-level for elaboration: {t}")
         return self.tops
 
     def elaborate_module_base(self, module: Module) -> Module:
